@@ -1,6 +1,36 @@
 package functions
 
-import "github.com/nyaruka/goflow/utils"
+import (
+	"regexp/syntax"
+
+	"github.com/nyaruka/goflow/excellent/types"
+	"github.com/nyaruka/goflow/utils"
+)
+
+// Matching a regular expression takes time proportional to the length of the text, times the size of the program which
+// the pattern compiles to, times the number of capture groups which are recorded for each state of that program. The
+// size of the program is not bounded by the length of the pattern: (a?){1000} is 10 characters and 2000 instructions,
+// so a pattern of 1000 characters takes a minute to match against 1000 characters of text.
+const maxRegexCost = 100000000
+
+// CheckRegexCost returns an error if matching the given valid pattern against the given text would take too long
+func CheckRegexCost(pattern string, text string) *types.XError {
+	parsed, err := syntax.Parse(pattern, syntax.Perl)
+	if err != nil {
+		return types.NewXErrorf("invalid regular expression")
+	}
+	captures := parsed.MaxCap()
+
+	prog, err := syntax.Compile(parsed.Simplify())
+	if err != nil {
+		return types.NewXErrorf("invalid regular expression")
+	}
+
+	if int64(len(text)+1)*int64(len(prog.Inst))*int64(captures+1) > maxRegexCost {
+		return types.NewXErrorf("regular expression is too complex to match against text of %d bytes", len(text))
+	}
+	return nil
+}
 
 func extractWords(text string, delimiters string) []string {
 	if delimiters != "" {
